@@ -41,6 +41,10 @@ func newInitCommand() *cobra.Command {
 }
 
 func initImpl(namespace string) error {
+	if !packaging.IsValidNamespaceName(formatting.ToPascalCase(namespace)) {
+		return fmt.Errorf("'%s' cannot be used as a package name: it does not yield a namespace that starts with a letter and consists of letters and digits", namespace)
+	}
+
 	modelDir := "model"
 	if err := os.MkdirAll(modelDir, 0775); err != nil {
 		return err
